@@ -190,9 +190,11 @@ theorem C02_consumer_fails {M : Type} {f : Framer M} (hs : PrefixStable f) (hnil
 example : feedAll (withConsumer mrp (fun m => m == [7])) [[1, 5, 1], [7, 1, 9]] = ⟨[[5]], [1, 7, 1, 9], some .consumer⟩
     ∧ (feed (withConsumer mrp (fun m => m == [7])) [] [1, 5, 1, 7, 1, 9]).msgs = [[5]] := by decide
 
-/-- **sends between reads**: any sequence of operations on one connection (reads
-    interleaved with sends of the application, e.g. RAOP's periodic `/feedback` request
-    while a response is half received) delivers what the unsplit stream delivers — in the
+/-- **sends and other events between reads**: any sequence of operations on one connection
+    (reads interleaved with sends of the application, e.g. RAOP's periodic `/feedback` request
+    while a response is half received, and with `Op.ctl` events: `enable_encryption` once the
+    last clear-text frame was delivered while the next frame is partly buffered, the caller of
+    a pending request giving up) delivers what the unsplit stream delivers — in the
     model a send does not touch the receive state; the harness interleaves real sends -/
 theorem C02_sends_irrelevant {M : Type} {f : Framer M} (hs : PrefixStable f) (ops : List Op)
     (hok : NoErr f (Op.recvs ops)) :
@@ -283,7 +285,7 @@ example : runSched mrp (fun _ => ⟨[], [], none⟩) [(0, [2]), (1, [1]), (0, [0
       = ⟨[[0xAA, 0xBB]], [], none⟩
     ∧ runSched mrp (fun _ => ⟨[], [], none⟩) [(0, [2]), (1, [1]), (0, [0xAA]), (1, [7, 3]), (0, [0xBB])] 1
       = ⟨[[7]], [3], none⟩
-    ∧ runOps mrp ⟨[], [], none⟩ [.recv [2], .send [9], .recv [0xAA], .send [], .recv [0xBB]]
+    ∧ runOps mrp ⟨[], [], none⟩ [.recv [2], .send [9], .recv [0xAA], .ctl 0, .recv [0xBB]]
       = ⟨[[0xAA, 0xBB]], [], none⟩ := by decide
 
 /-- well-formed HTTP message exists (header `A`, body 2 bytes, `clen = 2`) -/
